@@ -153,7 +153,8 @@ impl ActTask for Act {
                     return Ok(true);
                 }
 
-                if t.state().is_success() {
+                // submitted, removed .. children are finished too
+                if t.state().is_completed() {
                     count += 1;
                 }
             }
